@@ -806,7 +806,7 @@ func c39Run(c *Ctx) {
 // crORSetFullDelta tells the reference model that an ORSet delta carries the
 // originator's full state, as ORMap and MVRegister deltas do. That is the design
 // of the repository since the repair of the add-lost|orset defect (known_findings:
-// fixed 9df6360); before it an ORSet delta listed only the operation that
+// fixed 9a3083d); before it an ORSet delta listed only the operation that
 // produced it, which VERIF_CRDT_ORSET_OPDELTA=1 still models (experiments only).
 var crORSetFullDelta = os.Getenv("VERIF_CRDT_ORSET_OPDELTA") == ""
 
